@@ -47,8 +47,6 @@ Proof.
     destruct (negb (ver_ok && p_challenge (set_hs h (set_hs (lim_increase (p_hs p)) p)) && sig_ok)); [inversion H|].
     destruct (p_key (set_hs h (set_hs (lim_increase (p_hs p)) p))) as [k|]; [|inversion H].
     destruct (k =? key); inversion H.
-  - (* MTx *)
-    destruct (verified && (ty =? GT_TYPE) && negb (len =? GT_LEN)); [reflexivity|inversion H].
   - (* MGhostReq *)
     destruct (p_key p); [|reflexivity].
     destruct (a && overflow_checks st); [reflexivity|inversion H].
@@ -98,7 +96,6 @@ Proof.
   destruct m as [| sig_ok ver_ok key | | ty len verified | | | | | n | | a | | | | n];
     cbn [dispatch known_msg] in *; try discriminate.
   - eexists. reflexivity.
-  - rewrite H. eexists. reflexivity.
   - destruct (p_key p); [rewrite H|]; eexists; reflexivity.
   - cbn [p_kl set_kl].
     destruct (lim_check (lim_increase (p_kl p)) now) as [k ex]. cbn [snd] in H. subst ex.
